@@ -114,8 +114,18 @@ def build_mesh(spec):
             if spec.get("zero_duals"):
                 # exactly zero dual edge lengths occur in real meshes (boundary triangle with a right angle opposite
                 # the boundary edge): the Laplacian weight of such an edge is 0, its gradient weight is not
-                z = rng.random(len(edges)) < spec["zero_duals"]
-                z[bidx[: max(1, len(bidx) // 4)]] = True
+                # (a matching: no site loses more than one of its couplings, so the Poisson matrix keeps a one-dimensional null space)
+                z = np.zeros(len(edges), dtype=bool)
+                used = np.zeros(len(pts), dtype=bool)
+                order = np.concatenate([rng.permutation(bidx)[: max(1, len(bidx) // 4)], rng.permutation(len(edges))])
+                target = max(2, int(spec["zero_duals"] * len(edges)))
+                for k_ in order:
+                    a_, b_ = edges[k_]
+                    if not used[a_] and not used[b_] and not z[k_]:
+                        z[k_] = True
+                        used[a_] = used[b_] = True
+                        if z.sum() >= target:
+                            break
                 duals = np.where(z, 0.0, duals)
             em = EdgeMesh(
                 centers=pts[edges].mean(axis=1),
